@@ -11,6 +11,8 @@ import ast
 
 from ..core import AnalysisError, norm, loc, walk_no_nested, attr_chain, call_name, kwarg, find_calls, call_matches, receiver_name, assigned_from
 from ..cfg import CFG
+from ..core import func_params
+from ..normalize import inline, branch_values, merge_outcomes, Unknown, ctext, canon, local_env, expand, builders
 
 DELS = 'fim.slivers.delegations'
 ARM = 'fim.graph.resources.abc_arm:ABCARMPropertyGraph'
@@ -123,45 +125,134 @@ def run(prog, rep):
     fmts = prog.enum_members(mod.classes['DelegationFormat'])
     for f in fmts:
         w = any(isinstance(n, ast.Compare) and f'DelegationFormat.{f}' in ast.unparse(n) for n in ast.walk(tj))
-        r = any(isinstance(n, ast.Assign) and f'DelegationFormat.{f}' in ast.unparse(n.value) for n in ast.walk(fj))
-        rep.instance('R2', f'format {f}: encoded={w} decoded={r}')
+        rep.instance('R2', f'format {f}: encoded={w}')
         if not w:
             rep.violation('R2', loc(mod, tj), 'Delegations.to_json', f'format {f} not encoded', f'{f} delegations are dropped on encode')
-        if not r:
-            rep.violation('R2', loc(mod, fj), 'Delegations.from_json', f'format {f} not decoded', f'{f} delegations cannot be decoded')
-    # branch-wise keys of to_json
-    want = {'SinglePool': {'FIELD_POOL_ID', 'SINGLE_POOL_NAME', 'FIELD_CAPACITIES', 'FIELD_LABELS'},
+    # ---- the encoder as a table: (format, type) -> {key constant: value}, from the path-sensitive evaluation of to_json ----
+    tji = inline(prog, delegs, tj)
+    fji = inline(prog, delegs, fj)
+
+    def const_name(e):
+        return e.attr if isinstance(e, ast.Attribute) and (e.attr.startswith('FIELD_') or e.attr == 'SINGLE_POOL_NAME') else None
+
+    def fmt_of_conds(conds):
+        hit = [f for f in fmts for c in conds if isinstance(c, ast.Compare) and len(c.ops) == 1 and isinstance(c.ops[0], ast.Eq) and
+               any(isinstance(x, ast.Attribute) and x.attr == f and ast.unparse(x.value) == 'DelegationFormat' for x in (c.left, c.comparators[0]))]
+        return hit[0] if len(set(hit)) == 1 else None
+
+    def type_of_conds(conds):
+        for c in conds:
+            if isinstance(c, ast.Compare) and len(c.ops) == 1 and isinstance(c.ops[0], (ast.Eq, ast.NotEq)):
+                for x in (c.left, c.comparators[0]):
+                    if isinstance(x, ast.Attribute) and ast.unparse(x.value) == 'DelegationType' and x.attr in ('CAPACITY', 'LABEL'):
+                        pos = isinstance(c.ops[0], ast.Eq)
+                        return x.attr if pos else ('LABEL' if x.attr == 'CAPACITY' else 'CAPACITY')
+        return None
+    dict_names = {n.targets[0].value.id for n in ast.walk(tji) if isinstance(n, ast.Assign) and isinstance(n.targets[0], ast.Subscript)
+                  and isinstance(n.targets[0].value, ast.Name) and const_name(n.targets[0].slice)}
+
+    def enc_sink(st):
+        if isinstance(st, ast.Assign) and len(st.targets) == 1 and isinstance(st.targets[0], ast.Subscript) and \
+                isinstance(st.targets[0].value, ast.Name) and st.targets[0].value.id in dict_names:
+            return (st.targets[0].slice, st.value)
+        return None
+    try:
+        enc = merge_outcomes(branch_values(tji.body, enc_sink, follow_loops=True))
+    except Unknown as u:
+        raise AnalysisError(f'Delegations.to_json not analysable: {u}')
+    table = {}
+    for o in enc:
+        k = const_name(o.target)
+        f = fmt_of_conds(o.cond_nodes)
+        t = type_of_conds(o.cond_nodes)
+        if k is None or f is None:
+            continue
+        table.setdefault(f, []).append((k, t, o))
+    want = {'SinglePool': {'FIELD_POOL_ID', 'FIELD_CAPACITIES', 'FIELD_LABELS'},
             'PoolDefinition': {'FIELD_POOL_ID', 'FIELD_CAPACITIES', 'FIELD_LABELS'},
             'PoolReference': {'FIELD_POOL'}}
-    for n in ast.walk(tj):
-        if isinstance(n, ast.If) and isinstance(n.test, ast.Compare):
-            for f in fmts:
-                if f'DelegationFormat.{f}' in ast.unparse(n.test):
-                    got = {a.attr for s in n.body for a in ast.walk(s) if isinstance(a, ast.Attribute) and
-                           (a.attr.startswith('FIELD_') or a.attr == 'SINGLE_POOL_NAME')}
-                    rep.instance('R2', f'to_json[{f}] writes {sorted(got)}')
-                    if got != want[f]:
-                        rep.violation('R2', loc(mod, n), 'Delegations.to_json', f'{f}: writes {sorted(got)}',
-                                      f'a {f} delegation must be encoded with exactly {sorted(want[f])}')
-                    # pool name source
-                    if f == 'PoolDefinition' and 'v.get_pool_name()' not in ast.unparse(n.body):
-                        rep.violation('R2', loc(mod, n), 'Delegations.to_json', 'PoolDefinition: pool id not from get_pool_name()', 'pool name lost')
-                    if f == 'PoolReference' and 'v.get_pool_name()' not in ast.unparse(n.body):
-                        rep.violation('R2', loc(mod, n), 'Delegations.to_json', 'PoolReference: pool not from get_pool_name()', 'pool name lost')
-    # type <-> field <-> class in both directions
-    for fn, fname in ((tj, 'to_json'), (fj, 'from_json')):
-        for n in ast.walk(fn):
-            if isinstance(n, ast.If) and isinstance(n.test, ast.Compare) and 'DelegationType.CAPACITY' in ast.unparse(n.test) \
-                    and isinstance(n.test.ops[0], ast.Eq):
-                b = ast.unparse(n.body)
-                o = ast.unparse(n.orelse)
-                rep.instance('R2', f'{fname}: CAPACITY branch {norm(n.body[0], 80)}')
-                if 'FIELD_CAPACITIES' not in b or 'FIELD_LABELS' not in o or 'FIELD_LABELS' in b:
-                    rep.violation('R2', loc(mod, n), f'Delegations.{fname}', 'type/field pairing',
+
+    def is_call_on_entry(v, name):
+        return isinstance(v, ast.Call) and call_name(v) == name and not v.args
+    for f in fmts:
+        rows = table.get(f, [])
+        got = {k for k, t, o in rows}
+        rep.instance('R2', f'to_json[{f}] writes {sorted(got)}')
+        if got != want.get(f, set()):
+            rep.violation('R2', loc(mod, tj), 'Delegations.to_json', f'{f}: writes {sorted(got)}',
+                          f'a {f} delegation must be encoded with exactly {sorted(want.get(f, set()))}')
+        for k, t, o in rows:
+            v = o.value
+            if k == 'FIELD_POOL_ID' and f == 'SinglePool' and const_name(v) != 'SINGLE_POOL_NAME':
+                rep.violation('R2', loc(mod, o.stmt), 'Delegations.to_json', f'SinglePool: pool id written as {ctext(v)}',
+                              'a single-resource delegation must be marked with SINGLE_POOL_NAME (the decoder recognises it by that value)')
+            if k == 'FIELD_POOL_ID' and f == 'PoolDefinition' and not is_call_on_entry(v, 'get_pool_name'):
+                rep.violation('R2', loc(mod, o.stmt), 'Delegations.to_json', 'PoolDefinition: pool id not from get_pool_name()', 'pool name lost')
+            if k == 'FIELD_POOL' and not is_call_on_entry(v, 'get_pool_name'):
+                rep.violation('R2', loc(mod, o.stmt), 'Delegations.to_json', 'PoolReference: pool not from get_pool_name()', 'pool name lost')
+            if k in ('FIELD_CAPACITIES', 'FIELD_LABELS'):
+                rep.instance('R2', f'to_json[{f}]: {k} written for type {t}')
+                if t != ('CAPACITY' if k == 'FIELD_CAPACITIES' else 'LABEL'):
+                    rep.violation('R2', loc(mod, o.stmt), 'Delegations.to_json', 'type/field pairing',
                                   'CAPACITY delegations must use the capacities field and LABEL delegations the labels field')
-                if fname == 'from_json' and ('Capacities(' not in b or 'Labels(' not in o):
-                    rep.violation('R2', loc(mod, n), 'Delegations.from_json', 'type/class pairing',
-                                  'CAPACITY details must be rebuilt as Capacities and LABEL details as Labels')
+                if not is_call_on_entry(v, 'get_details_as_dict'):
+                    rep.violation('R2', loc(mod, o.stmt), 'Delegations.to_json', f'{k} written as {ctext(v)}', 'the details of the entry are lost')
+    # ---- the decoder as a table: per entry, (format, pool id, details) decided within the iteration ----
+    dloops = [l for l in walk_no_nested(fji) if isinstance(l, ast.For) and any(isinstance(c, ast.Call) and call_name(c) == 'Delegation' for c in ast.walk(l))]
+    if len(dloops) != 1:
+        raise AnalysisError('Delegations.from_json: loop over the decoded entries not found')
+    dl = dloops[0]
+    bound = {n.id for n in ast.walk(dl.target) if isinstance(n, ast.Name)} | set(func_params(fji))
+
+    def dec_sink(st):
+        for c in walk_no_nested(st):
+            if isinstance(c, ast.Call) and call_name(c) == 'Delegation' and isinstance(c.func, ast.Name):
+                return (ast.Tuple(elts=[kwarg(c, 'aformat') or ast.Constant(None), kwarg(c, 'pool_id') or ast.Constant(None)], ctx=ast.Load()),
+                        ast.Constant(value='ctor'))
+            if isinstance(c, ast.Call) and call_name(c) == 'set_details' and c.args:
+                return (c.args[0], ast.Constant(value='details'))
+        return None
+    try:
+        dec = merge_outcomes(branch_values(dl.body, dec_sink))
+    except Unknown as u:
+        raise AnalysisError(f'Delegations.from_json not analysable: {u}')
+    seen_fmt = set()
+    for o in dec:
+        if o.vtext == "'ctor'":
+            fe, pe = o.target.elts
+            f = fe.attr if isinstance(fe, ast.Attribute) and ast.unparse(fe.value) == 'DelegationFormat' else None
+            rep.instance('R2', f'from_json: entry built as format {ctext(fe)} with pool id {ctext(pe)}')
+            stale = [n.id for x in (fe, pe) for n in ast.walk(x) if isinstance(n, ast.Name) and n.id not in bound and n.id[:1].islower()]
+            if stale:
+                rep.violation('R2', loc(mod, o.stmt), 'Delegations.from_json', f'entry built from {sorted(set(stale))}, not set in this iteration',
+                              f'on this path the entry is built with {sorted(set(stale))} as left by an earlier entry (or by the code before '
+                              f'the loop): the decoded delegation takes the format / pool name of whatever entry came before it, so the '
+                              f'result depends on the order of the entries in the text')
+                continue
+            if f is None:
+                rep.violation('R2', loc(mod, o.stmt), 'Delegations.from_json', f'format {ctext(fe)}', 'the format of a decoded entry is not one of the three formats')
+                continue
+            seen_fmt.add(f)
+            okp = (f == 'SinglePool' and isinstance(pe, ast.Constant) and pe.value is None) or \
+                  (f == 'PoolDefinition' and isinstance(pe, ast.Subscript) and const_name(pe.slice) == 'FIELD_POOL_ID') or \
+                  (f == 'PoolReference' and isinstance(pe, ast.Subscript) and const_name(pe.slice) == 'FIELD_POOL')
+            if not okp:
+                rep.violation('R2', loc(mod, o.stmt), 'Delegations.from_json', f'{f}: pool id decoded as {ctext(pe)}',
+                              f'a {f} entry must be rebuilt with ' + {'SinglePool': 'no pool name', 'PoolDefinition': 'the pool id field of the entry',
+                                                                     'PoolReference': 'the pool field of the entry'}[f])
+        else:
+            d = o.target
+            t = type_of_conds(o.cond_nodes)
+            cls_ = call_name(d) if isinstance(d, ast.Call) else None
+            fld = [const_name(x.slice) for x in ast.walk(d) if isinstance(x, ast.Subscript) and const_name(x.slice)]
+            rep.instance('R2', f'from_json: details rebuilt as {cls_} from {fld} for type {t}')
+            okd = (t == 'CAPACITY' and cls_ == 'Capacities' and fld == ['FIELD_CAPACITIES']) or (t == 'LABEL' and cls_ == 'Labels' and fld == ['FIELD_LABELS'])
+            if not okd:
+                rep.violation('R2', loc(mod, o.stmt), 'Delegations.from_json', 'type/class pairing',
+                              'CAPACITY details must be rebuilt as Capacities from the capacities field and LABEL details as Labels from the labels field')
+    for f in fmts:
+        if f not in seen_fmt:
+            rep.violation('R2', loc(mod, fj), 'Delegations.from_json', f'format {f} not decoded', f'{f} delegations cannot be decoded')
     # from_json builds through the guarded API
     floops = [l for l in walk_no_nested(fj) if isinstance(l, ast.For) and isinstance(l.iter, ast.Call) and call_name(l.iter) == 'items']
     if not floops or not isinstance(floops[0].target, ast.Tuple):
@@ -192,12 +283,31 @@ def run(prog, rep):
         return ch[-1] if ch else None
 
     # --- generate: for each (delegation id, pool): one definition on the defining node, one reference per other node
-    outer = [l for l in walk_no_nested(gen) if isinstance(l, ast.For) and isinstance(l.iter, ast.Call) and call_name(l.iter) == 'items']
-    if not outer or not isinstance(outer[0].target, ast.Tuple):
+    gen = inline(prog, pools, gen)
+    outer = []
+    del_var = None
+    pool_loops = []
+    for l in walk_no_nested(gen):
+        if not isinstance(l, ast.For):
+            continue
+        if isinstance(l.iter, ast.Call) and call_name(l.iter) == 'items' and isinstance(l.target, ast.Tuple) and len(l.target.elts) == 2 \
+                and all(isinstance(e, ast.Name) for e in l.target.elts):
+            kv, vv = l.target.elts[0].id, l.target.elts[1].id
+            inner = [x for x in ast.walk(l) if isinstance(x, ast.For) and x is not l and isinstance(x.target, ast.Name) and isinstance(x.iter, ast.Name) and x.iter.id == vv]
+            if inner:
+                outer, del_var, pool_loops = [l], kv, inner
+                break
+        elif isinstance(l.target, ast.Name):
+            # iteration over the keys of the index, the pools looked up by key
+            base = l.iter.func.value if isinstance(l.iter, ast.Call) and call_name(l.iter) == 'keys' else l.iter
+            kv = l.target.id
+            inner = [x for x in ast.walk(l) if isinstance(x, ast.For) and x is not l and isinstance(x.target, ast.Name) and isinstance(x.iter, ast.Subscript)
+                     and ast.unparse(x.iter.value) == ast.unparse(base) and isinstance(x.iter.slice, ast.Name) and x.iter.slice.id == kv]
+            if inner:
+                outer, del_var, pool_loops = [l], kv, inner
+                break
+    if not outer:
         raise AnalysisError('generate_delegations_by_node_id: loop over the delegation index not found')
-    del_var = outer[0].target.elts[0].id
-    pool_loops = [l for l in ast.walk(outer[0]) if isinstance(l, ast.For) and l is not outer[0] and isinstance(l.target, ast.Name)
-                  and ast.unparse(l.iter) == ast.unparse(outer[0].target.elts[1])]
     if not pool_loops:
         raise AnalysisError('generate_delegations_by_node_id: loop over the pools of a delegation not found')
     pool_var = pool_loops[0].target.id
